@@ -257,6 +257,20 @@ theorem C13_create_validates_merged_configuration (P : PEnv κ σ) (s s' : BS κ
       simp only [alook_aset_self]
       rw [← this]
 
+/-- **The effective option of the target language**: what `get_target_language().get_option(key)` (the `options`
+global of the templates) reports right after `create()` is `_validate_language_options` applied to the `defaults` and
+`options` of the target's section of the merged configuration (built-in, files in call order, overrides). -/
+theorem C13_effective_option_of_target (P : PEnv κ σ) (s s' : BS κ σ) (j : Nat) (key : κ)
+    (h : s.create P j = .ok s') :
+    ∃ sec o' cx, (s.b.create P.resolve).config.get (s.targetOf P) = some (.map sec) ∧
+      P.E.validateOptions (s.targetOf P) ((dictOr sec P.E.defaults).getD .nil) ((dictOr sec P.E.options).getD .nil) = .ok o' ∧
+      alook s'.ctxs j = some cx ∧ cx.target.sect = s.targetOf P ∧
+      s'.read P j (.tgtOption key) = .ok (s', .val (o'.get key)) := by
+  obtain ⟨sec, sec', own, hg, hi, hcfg, hctx, _⟩ := C13_create_validates_merged_configuration P s s' j h
+  have hfin : s'.b.config.get (s.targetOf P) = some (.map sec') := by rw [hcfg, M.get_set_self]
+  obtain ⟨o', hv, hopt⟩ := option_after_init P.E s'.b.config (s.targetOf P) sec sec' own hi hfin key
+  exact ⟨sec, o', _, hg, hv, hctx, rfl, by simp [BS.read, hctx, hopt]⟩
+
 /-- … in particular an explicit value given through the API / command line is what the validation sees: at every
 path where the pending overrides hold an explicit leaf, the section handed to `Language.__init__` holds that leaf
 (whatever the files said).  A shorthand `std` given as an override is therefore expanded, and expanded as given. -/
